@@ -28,6 +28,12 @@ def slaterFlips (n nOcc : Nat) (occ : List Nat) : List Nat :=
 def gaussianFlips (n : Nat) (occ start : List Nat) : List Nat :=
   (List.range n).filter fun j => (occ.contains j) != (start.contains j)
 
+/-- `_is_spin_block_diagonal(matrix)`: the shortcut applies to *square* matrices with an even number of
+rows only (`if n % 2 or matrix.shape[1] != n: return False`); `offDiagZero` is the numerical test
+`isclose(max |upper right block|, 0) and isclose(max |lower left block|, 0)`, an input of the Model -/
+def spinBlockApplies (rows cols : Nat) (offDiagZero : Bool) : Bool :=
+  if rows % 2 != 0 || cols != rows then false else offDiagZero
+
 /-- spin-block split of the initially occupied orbitals in `bogoliubov_transform`:
 `[i for i in occ if i < n//2]`, `[i - n//2 for i in occ if i >= n//2]` -/
 def splitOrbitals (n : Nat) (occ : List Nat) : List Nat × List Nat :=
